@@ -8,6 +8,7 @@ import (
 	"go/ast"
 	"go/parser"
 	"go/token"
+	"go/types"
 	"os"
 	"path/filepath"
 	"sort"
@@ -615,59 +616,118 @@ func exoticFeatures(ps ...*pkgFiles) []string {
 
 // ---- cost sites ------------------------------------------------------------------------------------------------------
 
-// inside a loop body: `x += …`, `[]rune(…)`, `string(…[i:])`, strings.Split/ToLower/Repeat, newInputString
-func costSites(p *pkgFiles) []string {
+// Typed cost sites. Inside a loop body (or, one call level down, at the top level of a function of the package that is
+// called from inside a loop): a string built by `+=` / `x = x + …`, a conversion that copies its operand
+// ([]rune(s), []byte(s), string(bytes)), or a call to a function whose cost is linear in an operand. Numeric `+=` is not
+// a cost site. Reported as (function containing the site, kind); duplicates removed.
+var linearCalls = map[string]bool{"strings.Split": true, "strings.SplitN": true, "strings.ToLower": true, "strings.ToUpper": true, "strings.Repeat": true, "strings.ReplaceAll": true,
+	"strings.Replace": true, "strings.Join": true, "strings.Fields": true, "strings.Map": true, "strings.TrimFunc": true, "strings.Count": true, "newInputString": true,
+	"bytes.Join": true, "bytes.Repeat": true, "utf8.RuneCountInString": true, "fmt.Sprintf": true, "fmt.Sprint": true}
+
+func isStringType(t types.Type) bool {
+	if t == nil {
+		return false
+	}
+	b, ok := t.Underlying().(*types.Basic)
+	return ok && b.Info()&types.IsString != 0
+}
+
+func costSitesTyped(p *pkgFiles, info *types.Info) []string {
 	var res []string
-	p.funcs(func(file string, fd *ast.FuncDecl) {
-		var inLoop func(n ast.Node, depth int)
-		seen := map[string]bool{}
-		add := func(s string) {
-			k := funcName(fd) + "|" + s
-			if !seen[k] {
-				seen[k] = true
-				res = append(res, fmt.Sprintf("(%s, %s)", leanStr(funcName(fd)), leanStr(s)))
-			}
+	seen := map[string]bool{}
+	add := func(fn, s string) {
+		k := fn + "|" + s
+		if !seen[k] {
+			seen[k] = true
+			res = append(res, fmt.Sprintf("(%s, %s)", leanStr(fn), leanStr(s)))
 		}
-		inLoop = func(n ast.Node, depth int) {
-			ast.Inspect(n, func(m ast.Node) bool {
-				switch x := m.(type) {
-				case *ast.ForStmt:
-					if m != n {
-						inLoop(x.Body, depth+1)
-						return false
-					}
-				case *ast.RangeStmt:
-					if m != n {
-						inLoop(x.Body, depth+1)
-						return false
-					}
-				case *ast.AssignStmt:
-					if depth > 0 && x.Tok == token.ADD_ASSIGN {
-						add(exprStr(x.Lhs[0]) + " +=")
-					}
-				case *ast.CallExpr:
-					if depth > 0 {
-						s := exprStr(x.Fun)
-						if at, ok := x.Fun.(*ast.ArrayType); ok {
-							if id, ok := at.Elt.(*ast.Ident); ok && id.Name == "rune" {
-								add("[]rune()")
-							}
-						}
-						if s == "string" && len(x.Args) == 1 {
-							if _, ok := x.Args[0].(*ast.SliceExpr); ok {
-								add("string([:])")
-							}
-						}
-						if s == "strings.Split" || s == "strings.ToLower" || s == "strings.Repeat" || s == "newInputString" || s == "strings.ReplaceAll" {
-							add(s)
-						}
+	}
+	decls := map[string]*ast.FuncDecl{}
+	p.funcs(func(file string, fd *ast.FuncDecl) {
+		if o, ok := info.Defs[fd.Name].(*types.Func); ok {
+			k, _ := funcKey(o)
+			decls[k] = fd
+		}
+	})
+	typeOf := func(e ast.Expr) types.Type {
+		if tv, ok := info.Types[e]; ok {
+			return tv.Type
+		}
+		return nil
+	}
+	var scan func(fn string, n ast.Node, depth int, follow bool)
+	site := func(fn string, m ast.Node, follow bool) {
+		switch x := m.(type) {
+		case *ast.AssignStmt:
+			if x.Tok == token.ADD_ASSIGN && isStringType(typeOf(x.Lhs[0])) {
+				add(fn, "string += "+exprStr(x.Lhs[0]))
+			}
+			if x.Tok == token.ASSIGN && len(x.Lhs) == 1 && len(x.Rhs) == 1 && isStringType(typeOf(x.Lhs[0])) {
+				if b, ok := x.Rhs[0].(*ast.BinaryExpr); ok && b.Op == token.ADD && (exprStr(b.X) == exprStr(x.Lhs[0]) || exprStr(b.Y) == exprStr(x.Lhs[0])) {
+					add(fn, "string += "+exprStr(x.Lhs[0]))
+				}
+			}
+		case *ast.CallExpr:
+			if tv, ok := info.Types[x.Fun]; ok && tv.IsType() && len(x.Args) == 1 {
+				from, to := typeOf(x.Args[0]), tv.Type
+				_, fromSlice := from.Underlying().(*types.Slice)
+				_, toSlice := to.Underlying().(*types.Slice)
+				if (isStringType(from) && toSlice) || (fromSlice && isStringType(to)) {
+					add(fn, "copying conversion "+types.TypeString(to, nil)+"("+exprStr(x.Args[0])+")")
+				}
+				return
+			}
+			name := exprStr(x.Fun)
+			if linearCalls[name] {
+				add(fn, "call "+name)
+			}
+			if follow {
+				var fo *types.Func
+				switch f := x.Fun.(type) {
+				case *ast.Ident:
+					fo, _ = info.Uses[f].(*types.Func)
+				case *ast.SelectorExpr:
+					if sel, ok := info.Selections[f]; ok && sel.Kind() == types.MethodVal {
+						fo, _ = sel.Obj().(*types.Func)
+					} else {
+						fo, _ = info.Uses[f.Sel].(*types.Func)
 					}
 				}
-				return true
-			})
+				if fo != nil {
+					k, disp := funcKey(fo)
+					if fd := decls[k]; fd != nil {
+						scan(disp, fd.Body, 1, false) // the callee's own top level now runs once per iteration of the caller's loop
+					}
+				}
+			}
 		}
-		inLoop(fd.Body, 0)
+	}
+	scan = func(fn string, n ast.Node, depth int, follow bool) {
+		ast.Inspect(n, func(m ast.Node) bool {
+			switch x := m.(type) {
+			case *ast.FuncLit:
+				return true
+			case *ast.ForStmt:
+				if m != n {
+					scan(fn, x.Body, depth+1, follow)
+					return false
+				}
+			case *ast.RangeStmt:
+				if m != n {
+					scan(fn, x.Body, depth+1, follow)
+					return false
+				}
+			}
+			if depth > 0 && m != nil {
+				site(fn, m, follow)
+			}
+			return true
+		})
+	}
+	p.funcs(func(file string, fd *ast.FuncDecl) {
+		scan(funcName(fd), fd.Body, 0, true)
 	})
+	sort.Strings(res)
 	return res
 }
 
@@ -728,8 +788,11 @@ func factsCommand(args []string) bool {
 	w("spMethods", "List (String × Bool × Bool)", leanList(spMethods(urlPkg)))
 	w("callees", "List (String × List String)", leanList(calleesOf(urlPkg, map[string]bool{"Url.Clone": true, "Url.SetSearch": true, "Url.SearchParams": true, "Url.newUrlSearchParams": true, "SearchParams.Clone": true, "parser.Parse": true, "parser.ParseRef": true, "Url.Parse": true, "Parse": true, "ParseRef": true, "path.clone": true, "SearchParams.Sort": true, "SearchParams.SortAbsolute": true})))
 	w("exoticFeatures", "List String", leanStrList(exoticFeatures(urlPkg, canonPkg)))
-	w("costSitesUrl", "List (String × String)", leanList(costSites(urlPkg)))
-	w("costSitesCanon", "List (String × String)", leanList(costSites(canonPkg)))
+	mu, mc, _, uinfo, cinfo := modrefTyped()
+	w("modrefUrl", "List (String × Bool × List String × List String × List String × List (String × String))", leanList(mu))
+	w("modrefCanon", "List (String × Bool × List String × List String × List String × List (String × String))", leanList(mc))
+	w("costSitesUrl", "List (String × String)", leanList(costSitesTyped(typedUrl, uinfo)))
+	w("costSitesCanon", "List (String × String)", leanList(costSitesTyped(typedCanon, cinfo)))
 	// executed tables: membership over all scalar values as ranges
 	type ns struct {
 		n string
